@@ -181,6 +181,14 @@ impl Cx<'_> {
     pub fn adversarial(&mut self, kind: &'static str) {
         self.w.stats.count_fault(kind);
     }
+    /// The peer's process dies: its socket is closed, later datagrams to it bounce (ICMP).
+    pub fn close_endpoint(&mut self) {
+        let (me, ep) = (self.me, self.ep);
+        self.w.close_endpoint(Actor::Peer(me), ep);
+    }
+    pub fn icmp_enabled(&self) -> bool {
+        self.w.icmp
+    }
 }
 
 #[derive(Clone, Copy, Debug, PartialEq, Eq)]
